@@ -208,3 +208,72 @@ proof fn lemma_lb_fixed(t0: Map<u32, Bookmark>, tf: Map<u32, Bookmark>, lb1: int
 {
     if 0 < n <= list.len() { lemma_lb_fixed(t0, tf, lb1, lb2, list, n - 1); }
 }
+
+// ----- renumber_bookmarks / update_bookmark_pages (C10): bookmark targets follow a renamed page -----
+/// the page a bookmark points at after `old` was renamed to `new`
+pub open spec fn target(b: Bookmark, old: ObjectId, new: ObjectId) -> ObjectId { if b.page == old { new } else { b.page } }
+pub open spec fn same_but_any_page(x: Bookmark, y: Bookmark) -> bool {
+    y.children == x.children && y.id == x.id && y.title == x.title && y.format == x.format && y.color == x.color
+}
+/// `b` is `a` except that some pages equal to `old` became `new`: nothing else about any bookmark, and no list, changes
+pub open spec fn renamed(a: &Document, b: &Document, old: ObjectId, new: ObjectId) -> bool {
+    b.max_bookmark_id == a.max_bookmark_id && b.bookmarks == a.bookmarks && b.bookmark_table@.dom() == a.bookmark_table@.dom()
+    && forall|k: u32| #[trigger] a.bookmark_table@.contains_key(k) ==> same_but_any_page(a.bookmark_table@[k], b.bookmark_table@[k])
+        && (b.bookmark_table@[k].page == a.bookmark_table@[k].page || b.bookmark_table@[k].page == target(a.bookmark_table@[k], old, new))
+}
+/// every bookmark among the first n of `list`, and below them, points at its target
+pub open spec fn all_renamed(t0: Map<u32, Bookmark>, tf: Map<u32, Bookmark>, lb: int, list: Seq<u32>, n: int, old: ObjectId, new: ObjectId) -> bool
+    decreases M - lb - 1, n
+{
+    if n <= 0 || n > list.len() || lb < -1 || lb >= M { true }
+    else {
+        let id = list[n - 1];
+        all_renamed(t0, tf, lb, list, n - 1, old, new)
+        && (t0.contains_key(id) && id > lb ==>
+            tf[id].page == target(t0[id], old, new) && all_renamed(t0, tf, id as int, t0[id].children@, t0[id].children@.len() as int, old, new))
+    }
+}
+proof fn lemma_renamed_trans(a: &Document, b: &Document, c: &Document, old: ObjectId, new: ObjectId)
+    requires renamed(a, b, old, new), renamed(b, c, old, new) ensures renamed(a, c, old, new)
+{
+    assert forall|k: u32| #[trigger] a.bookmark_table@.contains_key(k) implies same_but_any_page(a.bookmark_table@[k], c.bookmark_table@[k])
+        && (c.bookmark_table@[k].page == a.bookmark_table@[k].page || c.bookmark_table@[k].page == target(a.bookmark_table@[k], old, new)) by {
+        assert(b.bookmark_table@.contains_key(k));
+    }
+}
+/// a bookmark that points at its target keeps doing so under further renaming steps of the same (old, new)
+proof fn lemma_ren_mono(t0: Map<u32, Bookmark>, b: &Document, c: &Document, lb: int, list: Seq<u32>, n: int, old: ObjectId, new: ObjectId)
+    requires renamed(b, c, old, new), b.bookmark_table@.dom() == t0.dom(), all_renamed(t0, b.bookmark_table@, lb, list, n, old, new)
+    ensures all_renamed(t0, c.bookmark_table@, lb, list, n, old, new) decreases M - lb - 1, n
+{
+    if n <= 0 || n > list.len() || lb < -1 || lb >= M { }
+    else {
+        let id = list[n - 1];
+        lemma_ren_mono(t0, b, c, lb, list, n - 1, old, new);
+        if t0.contains_key(id) && id > lb {
+            assert(b.bookmark_table@.contains_key(id));
+            lemma_ren_mono(t0, b, c, id as int, t0[id].children@, t0[id].children@.len() as int, old, new);
+        }
+    }
+}
+/// the same claim read against a later table whose bookmarks under `list` still have their original pages or their targets
+proof fn lemma_ren_lb(t0: Map<u32, Bookmark>, tf: Map<u32, Bookmark>, lb1: int, lb2: int, list: Seq<u32>, n: int, old: ObjectId, new: ObjectId)
+    requires all_above(list, lb1), all_above(list, lb2), -1 <= lb1 < M, -1 <= lb2 < M
+    ensures all_renamed(t0, tf, lb1, list, n, old, new) == all_renamed(t0, tf, lb2, list, n, old, new) decreases n
+{
+    if 0 < n <= list.len() { lemma_ren_lb(t0, tf, lb1, lb2, list, n - 1, old, new); }
+}
+proof fn lemma_ren_base(a: &Document, b: &Document, tf: Map<u32, Bookmark>, lb: int, list: Seq<u32>, n: int, old: ObjectId, new: ObjectId)
+    requires renamed(a, b, old, new), all_renamed(b.bookmark_table@, tf, lb, list, n, old, new)
+    ensures all_renamed(a.bookmark_table@, tf, lb, list, n, old, new) decreases M - lb - 1, n
+{
+    if n <= 0 || n > list.len() || lb < -1 || lb >= M { }
+    else {
+        let id = list[n - 1];
+        lemma_ren_base(a, b, tf, lb, list, n - 1, old, new);
+        if a.bookmark_table@.contains_key(id) && id > lb {
+            assert(b.bookmark_table@.contains_key(id));
+            lemma_ren_base(a, b, tf, id as int, a.bookmark_table@[id].children@, a.bookmark_table@[id].children@.len() as int, old, new);
+        }
+    }
+}
